@@ -355,89 +355,83 @@ def r4_raise_census(ctx):
 
 # --------------------------------------------------------------------------------------------- R5
 def r5_boundary_tie(ctx):
+    """Decided on the iteration table of the selector (rules/selmodel.py): the paths of one pass through the election
+    loop, each with its condition and effect in entry values, whatever order the body tests and appends in."""
+    from rules import selmodel
     prog = ctx.prog
-    f = prog.find_func("elect_cands_from_set_ranking")
-    params = f.params
-    if len(params) < 4:
-        raise AnalysisError("anchor-missing: elect_cands_from_set_ranking(ranking, m, profile, tiebreak)")
-    p_rank, p_m, p_prof, p_tb = params[:4]
-    pm = astx.parents(f.node)
-    loops = [n for n in astx.walk_own(f.node) if isinstance(n, ast.While)]
-    if len(loops) != 1:
-        ctx.undecided(f, f.node, "election loop", f"{len(loops)} while loops; expected one")
+    m = selmodel.model(prog)
+    f = m.f
+    if m.loop is None:
+        if m.problem and m.problem.startswith("anchor-missing"):
+            raise AnalysisError(m.problem)
+        ctx.undecided(f, f.node, "election loop", m.problem or "no election loop")
         return
-    loop = loops[0]
+    loop = m.loop
+    pm = astx.parents(f.node)
     tb_calls0 = astx.calls_in(f.node, "tiebreak_set")
     if tb_calls0 and all(astx.enclosing(c, pm, ast.While) is not loop for c in tb_calls0):
-        ctx.undecided(f, loop, "selector shape", "the boundary tie is resolved outside the election loop: not the append / overshoot arrangement these clauses describe")
+        ctx.undecided(f, loop, "selector shape", "the boundary tie is resolved outside the election loop: not the arrangement these clauses describe")
         return
-    N = Normalizer(f.node, inline=False, int_atoms=lambda a: True)
-    Ni = Normalizer(f.node, inline=True, int_atoms=lambda a: True)  # reads single-assignment temporaries through (unless stale)
-    lk = bool_key(N.guard(loop.test))
-    mt = re.fullmatch(rf"not ge\((\w+) - {p_m}, 0\)|not ge\(-{p_m} \+ (\w+), 0\)", lk)
-    # canonical key for `cnt < m` is `not ge(cnt - m, 0)` or with the other sign ordering
-    cnt = None
-    for cand in {n.id for n in ast.walk(loop.test) if isinstance(n, ast.Name)} - {p_m}:
-        if bool_key(spec_guard(f"{cand} < {p_m}", int_atoms=lambda a: True)) == lk:
-            cnt = cand
-    if cnt is None:
+    lk = bool_key(m.N().guard(loop.test))
+    if m.CNT is None:
         ctx.violated(f, loop, "election loop continues iff elected-so-far < m",
-                     f"loop test normal form is `{lk}`; expected `<count> < {p_m}` so that the loop stops at the first index reaching m")
+                     f"loop test normal form is `{lk}`; expected `<count> < {m.M}` so that the loop stops at the first index reaching m")
         return
     ctx.ok(f, loop, "election loop continues iff elected-so-far < m", lk)
-    # the counter is advanced by len(ranking[i]) of the group that was appended
-    incs = [n for n in astx.walk_own(loop) if isinstance(n, ast.AugAssign) and astx.is_name(n.target, cnt) and isinstance(n.op, ast.Add)]
-    apps = [c for c in astx.calls_in(loop, "append", own_only=False) if pm.get(pm.get(c)) is loop or True]
-    okinc = False
-    for inc in incs:
-        if isinstance(inc.value, ast.Call) and astx.u(inc.value.func) == "len" and pm.get(inc) is loop:
-            grp = Ni.key(inc.value.args[0])
-            if any(Ni.key(c.args[0]) == grp and pm.get(pm.get(c)) is loop for c in apps if c.args):
-                okinc = re.fullmatch(rf"{p_rank}\[\w+\]", grp) is not None
-    ctx.check(okinc, f, loop, "counter += len(group) for the group appended to elected",
-              "count tracks the number of candidates elected so far",
-              "the running count is not advanced by the size of the appended ranking group")
-    # ValueError iff overshoot and no tiebreak
-    spec = spec_guard(f"{cnt} > {p_m} and not {p_tb}", int_atoms=lambda a: True)
-    tie_raises = []
-    for r in astx.raises_in(f.node):
-        if astx.enclosing(r, pm, ast.While) is loop:
-            tie_raises.append(r)
-    tb_calls = astx.calls_in(f.node, "tiebreak_set")
-    if tb_calls and all(astx.enclosing(c, pm, ast.While) is not loop for c in tb_calls):
-        ctx.undecided(f, loop, "selector shape", "the boundary tie is resolved outside the election loop: not the append / overshoot arrangement these clauses describe")
+    if m.problem:
+        ctx.undecided(f, loop, "selector shape", m.problem)
         return
-    if not tie_raises:
+    int_atoms = lambda a: True
+    N = m.N()
+    grp = m.group()
+    # paths that go on to the next group: exactly when the group fits; the group is appended and counted
+    nexts = m.kinds("next")
+    fits = spec_guard(f"not ({m.overshoot()})", int_atoms=int_atoms)
+    okinc = bool(nexts) and not m.kinds("break")
+    for o in nexts:
+        e, c = o.state.get(m.E), o.state.get(m.CNT)
+        okinc = okinc and e is not None and len(e.segs) == 2 and e.segs[0] == ("base", m.E) and e.segs[1][0] == "elem" and N.key(e.segs[1][1]) == grp \
+            and c is not None and m.rat_eq(c, f"{m.CNT} + len({grp})")
+    okinc = okinc and equivalent(m.union(nexts), fits)
+    ctx.check(okinc, f, loop, "counter += len(group) for the group appended to elected",
+              "a group that fits is appended and counted; the loop goes on exactly then",
+              "on the paths that continue with the next group, the group is not appended and counted (count + len(group) <= m) exactly once: "
+              + "; ".join(f"[{bool_key(m.cond(o))}] {m.E}={o.state[m.E].text() if m.E in o.state else m.E}, {m.CNT}={astx.u(o.state.get(m.CNT)) if o.state.get(m.CNT) is not None else m.CNT}" for o in nexts)[:300])
+    # ValueError iff overshoot and no tiebreak
+    spec = spec_guard(f"{m.overshoot()} and not {m.TB}", int_atoms=int_atoms)
+    raises = m.kinds("raise")
+    if not raises:
         ctx.violated(f, loop, "unbroken boundary tie raises ValueError", "no raise inside the election loop: an unbroken tie returns some result")
-    for r in tie_raises:
-        g = N.conj([c for c in astx.path_condition(f.node, r, pm, drop_stale=False) if _inside(c[0], loop) and c[0] is not loop.test])
-        good = equivalent(g, spec) and astx.raise_type(r) == "ValueError"
-        ctx.check(good, f, r, "unbroken boundary tie raises ValueError",
-                  f"raise {astx.raise_type(r)} iff {bool_key(g)}",
-                  f"raise {astx.raise_type(r)} under `{bool_key(g)}`; specified: ValueError iff `{bool_key(spec)}`")
+    else:
+        g = m.union(raises)
+        good = equivalent(g, spec) and all(astx.raise_type(o.node) == "ValueError" for o in raises)
+        ctx.check(good, f, raises[0].node, "unbroken boundary tie raises ValueError",
+                  f"raise {astx.raise_type(raises[0].node)} iff {bool_key(g)}",
+                  f"raise {astx.raise_type(raises[0].node)} under `{bool_key(g)}`; specified: ValueError iff `{bool_key(spec)}`")
     # the tiebreak branch: returns inside the loop; third component = (tied group, tiebreak_set(...))
-    rets = [n for n in astx.walk_own(loop) if isinstance(n, ast.Return)]
-    spec_tb = spec_guard(f"{cnt} > {p_m} and {p_tb}", int_atoms=lambda a: True)
+    rets = m.kinds("return")
+    spec_tb = spec_guard(f"{m.overshoot()} and {m.TB}", int_atoms=int_atoms)
     if not rets:
         ctx.violated(f, loop, "broken boundary tie returns the resolution", "no return on the tiebreak branch")
-    for r in rets:
-        g = N.conj([c for c in astx.path_condition(f.node, r, pm, drop_stale=False) if _inside(c[0], loop) and c[0] is not loop.test])
+    else:
+        g = m.union(rets)
         okg = equivalent(g, spec_tb)
-        comp = r.value.elts if isinstance(r.value, ast.Tuple) else []
-        okc = False
-        detail = "return value is not a 3-tuple"
-        if len(comp) == 3 and isinstance(comp[2], ast.Tuple) and len(comp[2].elts) == 2:
-            tied, res = comp[2].elts
-            v = astx.unique_def(f.node, res.id) if isinstance(res, ast.Name) else res
-            if isinstance(v, ast.Call) and astx.call_name(v) == "tiebreak_set":
-                tb = prog.find_func("tiebreak_set")
-                b = astx.bind_args(v, tb.params)
-                okc = (Ni.key(b.get(tb.params[0])) == Ni.key(tied) and astx.is_name(b.get(tb.params[1]), p_prof)
-                       and astx.is_name(b.get(tb.params[2]), p_tb) and re.fullmatch(rf"{p_rank}\[\w+\]", Ni.key(tied)) is not None)
-                detail = f"third component ({astx.u(tied)}, {astx.u(v)})"
-            else:
-                detail = "resolution is not the result of tiebreak_set(tied group, profile, tiebreak)"
-        ctx.check(okg and okc, f, r, "broken boundary tie returns (tied group, its resolution)",
+        okc = True
+        detail = ""
+        tb = prog.find_func("tiebreak_set")
+        for o in rets:
+            v = selmodel.tie_call(m, o)
+            if v is None:
+                okc = False
+                detail = "third component is not (tied group, tiebreak_set(tied group, profile, tiebreak))"
+                continue
+            tied = o.value.elts[2].elts[0]
+            b = astx.bind_args(v, tb.params)
+            ok1 = (b.get(tb.params[0]) is not None and N.key(b.get(tb.params[0])) == N.key(tied) == grp and astx.is_name(b.get(tb.params[1]), m.PROF)
+                   and astx.is_name(b.get(tb.params[2]), m.TB))
+            okc = okc and ok1
+            detail = f"third component ({astx.u(tied)}, {astx.u(v)})"
+        ctx.check(okg and okc, f, rets[0].node, "broken boundary tie returns (tied group, its resolution)",
                   f"under {bool_key(g)}: {detail}",
                   f"path condition `{bool_key(g)}` (specified `{bool_key(spec_tb)}`); {detail}")
 
